@@ -60,7 +60,7 @@ theorem closure_call_rest_arity (L : Laws3 D) {n : Nat} {ps : List Text} {r : Te
     show Spec.Eval.M.bind' _ _ σ = _
     simp only [Spec.Eval.M.bind', h]
   · obtain ⟨f, cst, cst1, co, p, bcode, ints, caps, a1, a2, a3, a4, a5, a6, a7, a8, a9, a10, a11, a12, a13, a14, a15,
-      a16, a17, a18⟩ := hclos
+      a16, a17, a18, a19⟩ := hclos
     obtain ⟨hcode, hinfo⟩ := hi.loaded _ _ a8
     rw [← a10] at hcode hinfo
     have hpro : p.prologue = [.op .varArg, .op .enter] := by rw [a4, a2]; rfl
